@@ -58,18 +58,21 @@ Fixpoint list_eqb2 {A B} (eqb : A -> B -> bool) (a : list A) (b : list B) : bool
   end.
 
 (* case = (message hex, result class, version, count, filters) *)
-Definition parse_ok (c : string * N * N * N * list gdesc) : bool :=
+Definition parse_ok_gen (rep : bool) (c : string * N * N * N * list gdesc) : bool :=
   let '(m, code, ver, nf, gs) := c in
-  match parse_msg (unhex m) with
+  match parse_msg_gen rep (unhex m) with
   | Ok (v, n, ds) => (code =? 1) && (v =? ver) && (n =? nf) && list_eqb2 desc_eqb ds gs
   | Err => code =? 0
   | _ => false
   end.
 
+Definition parse_ok := parse_ok_gen filters_v2_names.
+
 (* reader on arbitrary message + chunk (deflate-free): (message hex, chunk hex, class, result hex) *)
-Definition read_ok (c : string * string * N * string) : bool :=
+Definition read_ok_gen (rep : bool) (c : string * string * N * string) : bool :=
   let '(m, d, code, o) := c in
-  match parse_msg (unhex m) with
+  match parse_msg_gen rep (unhex m) with
   | Ok (_, _, ds) => out_eq (reader_apply id_inflate ds (unhex d)) code (unhex o)
   | _ => false
   end.
+Definition read_ok := read_ok_gen filters_v2_names.
